@@ -37,7 +37,7 @@ FILTERS = {"red": f_red, "blue": f_blue}
 
 class Tok:
     __slots__ = ("idx", "side", "ev", "actor", "prio", "filt", "status", "arr", "t_issue", "t_grant",
-                 "t_last_wait")
+                 "grant_seq")
 
     def __init__(self, idx, side, ev, actor, prio, filt, arr, now):
         self.idx, self.side, self.ev, self.actor, self.prio, self.filt = idx, side, ev, actor, prio, filt
@@ -45,6 +45,7 @@ class Tok:
         self.arr = arr
         self.t_issue = now
         self.t_grant = None
+        self.grant_seq = None
 
     @property
     def live(self):
@@ -259,6 +260,7 @@ class World:
                     obs["ret"] = self.obj.put(t.ev, it)
                 t.status = USED
                 self.items.append(rec)
+                rec.x["put_seq"] = len(self.log)
                 obs["item"] = rec
             elif k == "get":
                 t = self.toks[op[1]]
@@ -328,6 +330,7 @@ class World:
             if t.status == PENDING and trig:
                 t.status = GRANTED
                 t.t_grant = self.now
+                t.grant_seq = len(self.log)
                 granted.append(t)
         obs["granted"] = granted
         self.log.append(obs)
@@ -441,13 +444,18 @@ def bad_calls(w):
 
     junk = lambda: HItem(10 ** 6, "red", w.spec.get("ilen", 1))
     obj = w.obj
+
+    class _C:   # conveyors: cancellation goes through the store (event.resourcename), as the nodes do it
+        reserve_put_cancel = staticmethod((obj if hasattr(obj, "reserve_put_cancel") else w.store).reserve_put_cancel)
+        reserve_get_cancel = staticmethod((obj if hasattr(obj, "reserve_get_cancel") else w.store).reserve_get_cancel)
+    canc = _C
     # no reservation at all / a token the store has never seen
     mk("put(None)", A[0], lambda: obj.put(None, junk()))
     mk("get(None)", A[0], lambda: obj.get(None))
     mk("put(foreign event)", A[0], lambda: obj.put(env.event(), junk()))
     mk("get(foreign event)", A[0], lambda: obj.get(env.event()))
-    mk("cancel_put(foreign event)", A[0], lambda: obj.reserve_put_cancel(env.event()))
-    mk("cancel_get(foreign event)", A[0], lambda: obj.reserve_get_cancel(env.event()))
+    mk("cancel_put(foreign event)", A[0], lambda: canc.reserve_put_cancel(env.event()))
+    mk("cancel_get(foreign event)", A[0], lambda: canc.reserve_get_cancel(env.event()))
     last = {}
     for t in w.toks:
         last[(t.side, t.status)] = t
@@ -462,10 +470,10 @@ def bad_calls(w):
                 mk("put(pending token)", own, lambda t=t: obj.put(t.ev, junk()))
             if status == USED:
                 mk("put(used token)", own, lambda t=t: obj.put(t.ev, junk()))
-                mk("cancel_put(used token)", own, lambda t=t: obj.reserve_put_cancel(t.ev))
+                mk("cancel_put(used token)", own, lambda t=t: canc.reserve_put_cancel(t.ev))
             if status == CANC:
                 mk("put(cancelled token)", own, lambda t=t: obj.put(t.ev, junk()))
-                mk("cancel_put(cancelled token)", own, lambda t=t: obj.reserve_put_cancel(t.ev))
+                mk("cancel_put(cancelled token)", own, lambda t=t: canc.reserve_put_cancel(t.ev))
         else:
             if status == GRANTED and len(A) > 1:
                 mk("get(other's granted token)", other(t.actor), lambda t=t: obj.get(t.ev))
@@ -475,8 +483,8 @@ def bad_calls(w):
                 mk("get(pending token)", own, lambda t=t: obj.get(t.ev))
             if status == USED:
                 mk("get(used token)", own, lambda t=t: obj.get(t.ev))
-                mk("cancel_get(used token)", own, lambda t=t: obj.reserve_get_cancel(t.ev))
+                mk("cancel_get(used token)", own, lambda t=t: canc.reserve_get_cancel(t.ev))
             if status == CANC:
                 mk("get(cancelled token)", own, lambda t=t: obj.get(t.ev))
-                mk("cancel_get(cancelled token)", own, lambda t=t: obj.reserve_get_cancel(t.ev))
+                mk("cancel_get(cancelled token)", own, lambda t=t: canc.reserve_get_cancel(t.ev))
     return out
